@@ -10,7 +10,8 @@ from vf import core
 
 THEOREMS = ["hp_safe", "hp_validated", "hp_gc_is_gc_list", "hp_use_live", "hp_binary_search_correct",
             "hp_scan_partition", "hp_reclaim_once", "hp_bounded_garbage", "hp_threshold_ok",
-            "hp_threshold_exact_refuted", "hp_plist_in_bounds"]
+            "hp_threshold_exact_refuted", "hp_plist_in_bounds", "hp_comparator_obligation",
+            "hp_truncating_compare_refuted"]
 JOIN, PROTECT, CLEAR, SWAP, USE, SCAN = 1, 2, 3, 4, 5, 6
 NODE = 1000
 
@@ -26,6 +27,42 @@ def parse_case(case):
         progs.append([(v[i + 2 * j], v[i + 2 * j + 1]) for j in range(n)])
         i += 2 * n
     return params, progs
+
+
+def monitor_cmp(params, tr):
+    a = (params[1] << 32) | params[2]
+    b = (params[3] << 32) | params[4]
+    want = (a > b) - (a < b)
+    if len(tr) != 1 or tr[0][2] != 909:
+        return "comparator mode produced no result"
+    got = tr[0][3]
+    if got != want:
+        return ("hazard_pointer_compare(0x%x, 0x%x) has sign %d, the unsigned order of the addresses is %d"
+                % (a, b, got, want))
+    return None
+
+
+def cmp_pairs(rng, nrandom):
+    """boundary + seeded random address pairs for the comparator"""
+    bases = [0, 1, 0x1000, 0x7fffffff, 0x80000000, 0xffffffff, 0x100000000, 0x7f0012345678,
+             0x00007fffffffffff, 0x7fffffffffffffff, 0x8000000000000000, 0xffff800000000000,
+             0xffffffffffffffff - (1 << 34)]
+    deltas = [0, 1, 8, 4096, (1 << 31) - 1, 1 << 31, (1 << 31) + 1, (1 << 32) - 1, 1 << 32, (1 << 32) + 5,
+              1 << 33, 5 << 30, (1 << 34) + 3, 1 << 47, 1 << 62, 1 << 63]
+    pairs = []
+    for x in bases:
+        for d in deltas:
+            y = x + d
+            if y < (1 << 64):
+                pairs += [(x, y), (y, x)]
+    pairs += [(0x7fffffffffffffff, 0), (0, 0x7fffffffffffffff), (0x8000000000000000, 1), (1, 0x8000000000000000),
+              (0xffffffffffffffff, 0), (0, 0xffffffffffffffff), (0xffffffffffffffff, 0xffffffffffffffff)]
+    for _ in range(nrandom):
+        x = rng.getrandbits(rng.choice([20, 33, 47, 64]))
+        y = (x + rng.choice([1, -1]) * rng.getrandbits(rng.choice([4, 31, 32, 33, 40, 63]))) % (1 << 64) \
+            if rng.random() < 0.7 else rng.getrandbits(64)
+        pairs.append((x, y))
+    return pairs
 
 
 def monitor_bs(params, tr):
@@ -52,6 +89,8 @@ def monitor(case, tr, raw):
     if tr == [(-1,)] or (raw or "").strip() == "-1":
         return None
     K = params[0]
+    if K == -1:
+        return monitor_cmp(params, tr)
     if K == 0:
         return monitor_bs(params, tr)
     P, C = params[1], params[2]
@@ -189,13 +228,34 @@ def rand_prog(rng, K, C, n, joined):
     return p
 
 
+def far_directed():
+    """every slot of one or two records protects a node of a different far-apart region while another
+    thread unlinks, retires and scans them"""
+    out = []
+    for Kf in (4, 3, 2):
+        for order in ([0, 1, 2, 3], [3, 1, 0, 2], [2, 3, 1, 0]):
+            cs = order[:Kf] if Kf < 4 else order
+            prot = [(PROTECT, s * 8 + cs[s]) for s in range(len(cs))]
+            p0 = prot + [(USE, s) for s in range(len(cs))]
+            p1 = [(SWAP, j) for j in cs] + [(SCAN, 0)] + [(SWAP, j) for j in cs] + [(SCAN, 0)]
+            out.append(core.fmt_case([Kf, 2, 4, 16, 900, 1], [p0, p1], [0] * (3 * len(cs)) + [1] * 200))
+            pa = [(PROTECT, cs[0]), (PROTECT, 8 + cs[1])]
+            pb = [(PROTECT, cs[-1])] + ([(PROTECT, 8 + cs[2])] if len(cs) > 2 else [])
+            out.append(core.fmt_case([Kf, 3, 4, 16, 900, 1], [pa, pb, p1], [0] * 6 + [1] * 6 + [2] * 200))
+    return out
+
+
 def gen_cases(ctx, tier):
     rng = random.Random(ctx.seed * 7919 + 14)
-    cases = []
+    # a few end-to-end far-apart cases first, so that their replays are among the stored ones
+    cases = far_directed()[:3]
     # binary search: every sorted array of length <= 6 over 8 values, needles 0..9
     arrays = list(sorted_arrays())
     for a in arrays:
         cases.append(core.fmt_case([0, len(a)] + a, [], []))
+    # comparator: sign of hazard_pointer_compare vs unsigned order, boundary + random pairs
+    for (x, y) in cmp_pairs(rng, 400 if tier == "quick" else 5000):
+        cases.append(core.fmt_case([-1, x >> 32, x & 0xffffffff, y >> 32, y & 0xffffffff], [], []))
     n_bs = len(cases)
     # exhaustive interleavings of pairs of calls, K=1, one cell
     pro_use = [(PROTECT, 0), (USE, 0)]
@@ -232,6 +292,21 @@ def gen_cases(ctx, tier):
         C = rng.choice([1, 2])
         cases.append(core.fmt_case([K, rng.choice([0, 1]), C, C + rng.choice([0, 3, 10]), 600],
                                    [rand_prog(rng, K, C, rng.randint(1, 30), False)], []))
+    # far-apart layout (params[5] = 1): node k at {0, 2.5, 5, 8} GiB [k mod 4]; the published hazard
+    # pointers are >= 2^31 apart, the snapshot sort and the binary search work on real far addresses
+    n_far0 = len(cases)
+    cases += far_directed()[3:]
+    for _ in range(500 if tier == "quick" else 8000):
+        K = rng.choice([2, 3, 4, 4])
+        nt = rng.choice([2, 3, 4])
+        P = rng.randint(1, nt)
+        C = rng.choice([2, 3, 4, 4])
+        NN = C + rng.choice([2, 4, 8, 12])
+        progs = [rand_prog(rng, K, C, rng.randint(2, 10), t < P) for t in range(nt)]
+        length = rng.randint(5, 8 * sum(len(p) for p in progs) + 5)
+        cases.append(core.fmt_case([K, P, C, NN, 600, 1], progs,
+                                   core.random_sched(rng, nt, length, rng.randrange(3))))
+    n_far = len(cases) - n_far0 + 3
     # boundaries: threshold reached exactly (K=1,P=1 -> threshold 2), empty pool, max K,
     # every slot protected at the scan, late joiners bumping thresholds during a retire
     cases.append(core.fmt_case([1, 1, 1, 6, 300], [[(SWAP, 0), (SWAP, 0), (SWAP, 0)]], []))
@@ -243,7 +318,8 @@ def gen_cases(ctx, tier):
     cases.append(core.fmt_case([1, 1, 1, 8, 600],
                                [[(SWAP, 0)] * 4, [(JOIN, 0)], [(JOIN, 0)]], [0, 0, 1, 1, 1, 1, 1, 1, 2, 2, 0, 0, 0, 2, 2, 2, 2]))
     cases.append(core.fmt_case([4, 1, 1, 2, 300], [[(PROTECT, 3 * 8), (PROTECT, 4 * 8), (CLEAR, 4), (USE, 3), (USE, 2)]], []))
-    ctx.coverage["case_distribution"] = {"binary_search_arrays": n_bs,
+    ctx.coverage["case_distribution"] = {"comparator_pairs_and_binary_search_arrays": n_bs,
+                                         "far_apart_layout": n_far,
                                          "exhaustive_2thread_interleavings": n_ex,
                                          "random_programs": nrand, "sequential": 200,
                                          "total": len(cases)}
@@ -264,7 +340,8 @@ def run(ctx):
         st = ctx.stats["hazard"]
         ctx.coverage.update({"traces_validated_against_impl": st["cases"] - st["differ"],
                              "evaluations": st["cases"], "distinct_nontrivial": st["nontrivial"],
-                             "rule": "case = (K, pre-joined records, cells, nodes, programs of "
+                             "rule": "case = an address pair for hazard_pointer_compare, or (K, pre-joined records, "
+                                     "cells, nodes, layout [one array / pages 2.5 GiB apart], programs of "
                                      "join/protect/clear/swap+retire/use/scan per thread, schedule) or a sorted "
                                      "haystack for binary_search; non-trivial = a failed CAS or a call returning 0 "
                                      "(failed validation / empty retired list) in the implementation trace"})
@@ -325,8 +402,10 @@ TRUSTED = [
     "model of hazard_pointer.h/.c written by hand (coq/Hazard.v); tie = identical per-access traces",
     "SC interleaving of accesses (store_load_barrier is a no-op under SC; TSO is outside this check); "
     "weak CAS modelled as strong (x86 cmpxchg); -O0 instrumented build",
-    "qsort: assumed to return a sorted permutation (Section hypotheses, discharged for insertion sort in the "
-    "executable model); pointer order of nodes = index order in the harness array",
+    "qsort: assumed to return a sorted permutation for a comparator that is a total order (good_sort; "
+    "hp_comparator_obligation shows any comparator-driven sort is one); hazard_pointer_compare is tied to the "
+    "model comparator cmp64 by the differential mode (sign on boundary/random address pairs, also >= 2^31 apart) "
+    "and end to end by the far-apart node layout",
 ]
 ASSUME = ["a thread owns at most one record and uses slot indices < K (asserted by the C code)",
           "retired_count / retire_threshold do not overflow size_t (unbounded nat in the model)",
